@@ -68,6 +68,9 @@ func New(expr parser.Expr, queryable storage.Queryable, mint, maxt time.Time, st
 }
 
 func newOperator(expr parser.Expr, storage *engstore.SelectorPool, opts *query.Options, hints storage.SelectHints) (model.VectorOperator, error) {
+	if op, ok, err := verifIntercept(expr, storage, opts, hints); ok {
+		return op, err
+	}
 	switch e := expr.(type) {
 	case *parser.NumberLiteral:
 		return scan.NewNumberLiteralSelector(model.NewVectorPool(stepsBatch), opts, e.Val), nil
